@@ -60,11 +60,13 @@ impl Scenario for C17S {
         "C17"
     }
     fn variants(&self) -> &'static [&'static str] {
-        &["os", "inproc"]
+        &["os", "inproc", "hook"]
     }
     fn count(&self, tier: Tier, variant: &str) -> u64 {
         match (tier, variant) {
             (Tier::Quick, "os") => 32_000,
+            (Tier::Quick, "hook") => 10_000,
+            (Tier::Thorough, "hook") => 300_000,
             (Tier::Quick, _) => 10_000,
             (Tier::Thorough, "os") => 1_400_000,
             (Tier::Thorough, _) => 400_000,
